@@ -328,12 +328,12 @@ func vfRunShape(nOps int, shape int) {
 	zzvf.Reach("c17-end")
 }
 
-// VerifC17Ops: two (thorough: three) operations with symbolic keys on each of the
-// prebuilt shapes, for slot length 2 and 4, unique and duplicate stores, with and without
+// VerifC17Ops: two operations with symbolic keys on each of the prebuilt shapes (quick: the
+// first four shapes and four configurations; thorough: all shapes and configurations), for slot length 2 and 4, unique and duplicate stores, with and without
 // leaf load balancing.
 func VerifC17Ops() {
 	if zzvf.Thorough() {
-		vfRun(3, len(vfShapes))
+		vfRun(2, len(vfShapes)) // all shapes, all eight configurations
 	} else {
 		vfRun(2, 4)
 	}
@@ -345,11 +345,7 @@ func VerifC17Scrambled() {
 	vfRunShape(2, len(vfShapes)-1)
 }
 
-// VerifC17FromEmpty: three (thorough: four) operations from the empty tree.
+// VerifC17FromEmpty: three operations from the empty tree.
 func VerifC17FromEmpty() {
-	if zzvf.Thorough() {
-		vfRun(4, 1)
-	} else {
-		vfRun(3, 1)
-	}
+	vfRun(3, 1) // thorough: all eight configurations
 }
